@@ -423,6 +423,10 @@ def replay(chk: Check, invs, fixed=None):
         raise MachineryError("hybrid generator printed nothing")
     cap_a, cap_b = (3000, 600) if t == "quick" else (40000, 6000)
     la = lines if len(lines) <= cap_a else rnd.sample(lines, cap_a)
+    # the recorded inputs of the listed finding F14 are always part of the replay (first month, both peaks on day 0, 47 h duration)
+    f14 = [l for l in lines if l["slot"] == 1 and l["M"] in (1, 13) and l["special"]["pkc"] and l["special"]["pkh"] and l["special"]["dayC"] == 0
+           and l["special"]["dayH"] == 0 and max(l["special"]["dc"], l["special"]["dh"]) > 26 * HU][:6]
+    la = la + [l for l in f14 if l not in la]
     lb_pool = [l for l in lines if l["M"] in (13, 25, 14, 26, 40, 360)]
     lb = lb_pool if len(lb_pool) <= cap_b else rnd.sample(lb_pool, cap_b)
     viol, drift = [], []
